@@ -754,6 +754,150 @@ theorem newTick_eq_incremental (set : Bool) (lhs : Src (κ × ν1)) (rhs : Src (
     Nat.zero_add] at h1
   simpa [Half.empty] using h1.symm
 
+/-! ### `NewTickJoinIter`: the transcribed state machine enumerates what the nested loops denote -/
+
+/-- what a state of the iterator will still yield -/
+def NTI.rem {νo νi : Type} (probe : κ → List νi) (s : NTI κ νo νi) : List (κ × νo × νi) :=
+  (match s.inner, s.key, s.oval with
+    | some ws, some k, some v => ws.map fun w => (k, v, w)
+    | _, _, _ => []) ++
+  ((match s.ovals, s.key with
+    | some vs, some k => vs.flatMap fun v => (probe k).map fun w => (k, v, w)
+    | _, _ => []) ++
+  (match s.outer with
+    | some es => es.flatMap fun e => e.2.flatMap fun v => (probe e.1).map fun w => (e.1, v, w)
+    | none => []))
+
+/-- the `unwrap()`s cannot fail -/
+def NTI.Good {νo νi : Type} (s : NTI κ νo νi) : Prop :=
+  (∀ w ws, s.inner = some (w :: ws) → s.key.isSome ∧ s.oval.isSome) ∧
+  (∀ v vs, s.ovals = some (v :: vs) → s.key.isSome)
+
+def BodyOk {νo νi : Type} (probe : κ → List νi) (s : NTI κ νo νi) : NTIRes κ νo νi → Prop
+  | .ret s' (some x) => s'.Good ∧ s.rem probe = x :: s'.rem probe
+  | .ret _ none => s.rem probe = []
+  | .cont s' => s'.Good ∧ s'.rem probe = s.rem probe ∧ s'.measure + 1 = s.measure
+
+theorem aux_ntiBody {νo νi : Type} (probe : κ → List νi) (s : NTI κ νo νi) (h : s.Good) :
+    BodyOk probe s (ntiBody probe s) := by
+  obtain ⟨outer, key, ovals, oval, inner⟩ := s
+  rcases inner with _ | _ | ⟨w, ws⟩ <;> rcases ovals with _ | _ | ⟨v, vs⟩ <;> rcases key with _ | k <;>
+    rcases oval with _ | ov <;> rcases outer with _ | _ | ⟨⟨k', vals⟩, rest⟩ <;>
+    simp_all [ntiBody, BodyOk, NTI.rem, NTI.Good, NTI.measure] <;> omega
+
+/-- `next()`: with enough fuel the loop returns the head of what is still to come, or `None` when nothing is -/
+theorem aux_ntiNext {νo νi : Type} (probe : κ → List νi) (fuel : Nat) (s : NTI κ νo νi) (h : s.Good) (hf : s.measure < fuel) :
+    match ntiNext probe fuel s with
+    | (s', some x) => s'.Good ∧ s.rem probe = x :: s'.rem probe
+    | (_, none) => s.rem probe = [] := by
+  induction fuel generalizing s with
+  | zero => omega
+  | succ fuel ih =>
+    have hb := aux_ntiBody probe s h
+    simp only [ntiNext]
+    rcases hbody : ntiBody probe s with ⟨s', _ | x⟩ | s'
+    · rw [hbody] at hb; simpa [BodyOk] using hb
+    · rw [hbody] at hb; simpa [BodyOk] using hb
+    · rw [hbody] at hb
+      obtain ⟨hg, hr, hm⟩ := hb
+      have := ih s' hg (by omega)
+      rw [hr] at this
+      exact this
+
+/-- pulled to its end, the iterator yields exactly what its state promises -/
+theorem aux_ntiCollect {νo νi : Type} (probe : κ → List νi) (n : Nat) (s : NTI κ νo νi) (h : s.Good)
+    (hn : (s.rem probe).length < n) : ntiCollect probe n s = s.rem probe := by
+  induction n generalizing s with
+  | zero => omega
+  | succ n ih =>
+    have hx := aux_ntiNext probe s.fuel s h (by simp [NTI.fuel])
+    simp only [ntiCollect]
+    rcases hnx : ntiNext probe s.fuel s with ⟨s', _ | x⟩
+    · rw [hnx] at hx; simp only at hx; rw [hx]
+    · rw [hnx] at hx
+      obtain ⟨hg, hr⟩ := hx
+      rw [hr] at hn ⊢
+      simp only [length_cons] at hn
+      dsimp only
+      rw [ih s' hg (by omega)]
+
+theorem aux_nti_start {νo νi : Type} (probe : κ → List νi) (t : Table κ νo) :
+    (NTI.start t : NTI κ νo νi).Good ∧
+    (NTI.start t : NTI κ νo νi).rem probe =
+      t.flatMap fun e => e.2.flatMap fun v => (probe e.1).map fun w => (e.1, v, w) := by
+  simp [NTI.start, NTI.Good, NTI.rem]
+
+/-- **`NewTickJoinIter` is its nested loops**: the state machine transcribed from `next_lhs_smaller` /
+`next_rhs_smaller`, pulled until it ends, yields exactly the enumeration `newTickJoin` (same order) -/
+theorem newTickIter_machine_refines (ls : Half κ ν1 ν2) (rs : Half κ ν2 ν1) (n : Nat)
+    (hn : (newTickJoin ls rs).length < n) : newTickRun n ls rs = newTickJoin ls rs := by
+  by_cases hlt : ls.len < rs.len
+  · have hspec : newTickJoin ls rs =
+        ls.table.flatMap fun e => e.2.flatMap fun v => (rs.table.fullProbe e.1).map fun w => (e.1, v, w) := by
+      simp [newTickJoin, newTickIter, hlt]
+    rw [hspec] at hn ⊢
+    obtain ⟨hg, hr⟩ := aux_nti_start (νi := ν2) rs.table.fullProbe ls.table
+    rw [newTickRun, if_pos hlt, aux_ntiCollect _ n _ hg (by rw [hr]; exact hn), hr]
+  · have hspec : newTickJoin ls rs =
+        rs.table.flatMap fun x => x.2.flatMap fun v2 => (ls.table.fullProbe x.1).map fun v1 => (x.1, v1, v2) := by
+      simp [newTickJoin, newTickIter, hlt]
+    rw [hspec] at hn ⊢
+    obtain ⟨hg, hr⟩ := aux_nti_start (νi := ν1) ls.table.fullProbe rs.table
+    have key : ((NTI.start rs.table : NTI κ ν2 ν1).rem ls.table.fullProbe).map (fun x => (x.1, x.2.2, x.2.1)) =
+        rs.table.flatMap fun x => x.2.flatMap fun v2 => (ls.table.fullProbe x.1).map fun v1 => (x.1, v1, v2) := by
+      rw [hr]; simp [map_flatMap, Function.comp_def]
+    have hlen := congrArg List.length key
+    rw [length_map] at hlen
+    rw [newTickRun, if_neg hlt, aux_ntiCollect _ n _ hg (by rw [hlen]; exact hn), key]
+
+theorem aux_fullProbe_le (t : Table κ ν) (k : κ) : (t.fullProbe k).length ≤ t.size := by
+  induction t with
+  | nil => simp [Table.fullProbe, Table.get, Table.size]
+  | cons e r ih =>
+    obtain ⟨k', vs⟩ := e
+    by_cases h : k' = k
+    · simp [Table.fullProbe, Table.get, Table.size, h]
+    · have : (Table.fullProbe ((k', vs) :: r) k) = Table.fullProbe r k := by simp [Table.fullProbe, Table.get, h]
+      rw [this]; simp [Table.size] at ih ⊢; omega
+
+theorem aux_nested_length {νo νi : Type} (probe : κ → List νi) (B : Nat) (hB : ∀ k, (probe k).length ≤ B) (t : Table κ νo) :
+    (t.flatMap fun e => e.2.flatMap fun v => (probe e.1).map fun w => (e.1, v, w)).length ≤ t.size * B := by
+  induction t with
+  | nil => simp [Table.size]
+  | cons e r ih =>
+    have h1 : (e.2.flatMap fun v => (probe e.1).map fun w => (e.1, v, w)).length = e.2.length * (probe e.1).length := by
+      induction e.2 with
+      | nil => simp
+      | cons v vs ih2 => simp [flatMap_cons, ih2, Nat.add_mul]; omega
+    simp only [flatMap_cons, length_append, h1, Table.size, map_cons, sum_cons] at ih ⊢
+    have := Nat.mul_le_mul_left e.2.length (hB e.1)
+    rw [Nat.add_mul]; omega
+
+/-- the fuel the driver gives `newTickRun` is enough -/
+theorem newTickJoin_length_le (ls : Half κ ν1 ν2) (rs : Half κ ν2 ν1) :
+    (newTickJoin ls rs).length < ls.table.size * rs.table.size + 1 := by
+  have hl := aux_nested_length (νo := ν1) rs.table.fullProbe rs.table.size (aux_fullProbe_le rs.table) ls.table
+  have hr := aux_nested_length (νo := ν2) ls.table.fullProbe ls.table.size (aux_fullProbe_le ls.table) rs.table
+  by_cases hlt : ls.len < rs.len
+  · have hspec : newTickJoin ls rs =
+        ls.table.flatMap fun e => e.2.flatMap fun v => (rs.table.fullProbe e.1).map fun w => (e.1, v, w) := by
+      simp [newTickJoin, newTickIter, hlt]
+    rw [hspec]; omega
+  · have hspec : (newTickJoin ls rs).length =
+        (rs.table.flatMap fun e => e.2.flatMap fun v => (ls.table.fullProbe e.1).map fun w => (e.1, v, w)).length := by
+      simp [newTickJoin, newTickIter, hlt, length_flatMap]
+    rw [hspec, Nat.mul_comm]; omega
+
+/-- **The machine emits the join of the tables**: `NewTickJoinIter` as transcribed (either orientation),
+on any two tables with distinct keys, with the fuel the driver uses: `(k,(v1,v2))` comes out exactly
+`|lhsTable[k,v1]| * |rhsTable[k,v2]|` times -/
+theorem newTick_machine_emits_join_of_tables (ls : Half κ ν1 ν2) (rs : Half κ ν2 ν1)
+    (hl : ls.table.WF) (hr : rs.table.WF) (n : Nat) (hn : ls.table.size * rs.table.size < n)
+    (k : κ) (v1 : ν1) (v2 : ν2) :
+    count (k, v1, v2) (newTickRun n ls rs) = tcount ls.table k v1 * tcount rs.table k v2 := by
+  rw [newTickIter_machine_refines ls rs n (by have := newTickJoin_length_le ls rs; omega),
+    newTick_emits_join_of_tables ls rs hl hr]
+
 /-! ### multi-tick histories: state carried over, inputs appended -/
 
 /-- outputs until the first `Ended`, and the state in which it was reported -/
@@ -1059,5 +1203,11 @@ example : runNewTicks true 20 false true (Half.empty : Half Nat Nat Nat) (Half.e
     [([.ready (0, 1), .pending], [.pending, .ready (0, 5)]), ([.pending], [.ready (0, 7), .ready (0, 7)])]
     = [[(0, 1, 5)], [(0, 1, 7)]] := by
   decide
+
+/-- the transcribed `NewTickJoinIter` on two small tables: lhs outer (2 < 3), then rhs outer (3 ≥ 2) -/
+example : newTickRun 7 (⟨[(0, [1, 2]), (1, [4])], [], 2⟩ : Half Nat Nat Nat) (⟨[(0, [5]), (1, [6, 7])], [], 3⟩ : Half Nat Nat Nat)
+    = [(0, 1, 5), (0, 2, 5), (1, 4, 6), (1, 4, 7)] := by decide
+example : newTickRun 7 (⟨[(0, [1, 2]), (1, [4])], [], 3⟩ : Half Nat Nat Nat) (⟨[(0, [5]), (1, [6, 7])], [], 2⟩ : Half Nat Nat Nat)
+    = [(0, 1, 5), (0, 2, 5), (1, 4, 6), (1, 4, 7)] := by decide
 
 end HvPull
